@@ -92,6 +92,7 @@ class Discipline:
         self.violations: list[str] = []
         self.mutations = 0
         self.removed: list[typing.Any] = []  # connections taken out of the pool (evicted / expired / closed)
+        self.io_under_lock: list[str] = []  # network operations issued while the pool's thread lock was held
 
 
 class GuardedList(list):  # type: ignore[type-arg]
@@ -195,8 +196,11 @@ class AsyncGuardedPool(apool_mod.AsyncConnectionPool):
 def make_pool(is_async: bool, net: Net, **kw: typing.Any) -> typing.Any:
     kw.setdefault("ssl_context", FakeSSLContext("origin"))
     if is_async:
-        return AsyncGuardedPool(network_backend=AsyncSimBackend(net), **kw)
-    return GuardedPool(network_backend=SimBackend(net), **kw)
+        pool: typing.Any = AsyncGuardedPool(network_backend=AsyncSimBackend(net), **kw)
+    else:
+        pool = GuardedPool(network_backend=SimBackend(net), **kw)
+    net.pool = pool  # type: ignore[attr-defined]
+    return pool
 
 
 # ---------------------------------------------------------------------------
